@@ -801,9 +801,12 @@ def main(argv):
                     harness_errors.append('violation %s did not replay in a fresh interpreter (%s): %s' % (mv['class'], path, out[-300:]))
                     continue
             new.append((path, '%s on %s parser, text %r: %s' % (mv['class'], mv['parser_kind'], mv['text'][:160], mv['detail'][:200])))
+    # the same check, other run indices, under other interpreter configurations (python -O)
+    slices = [] if args.digests else core.run_config_slices(PROP, args.tier, max(8, cfg['runs'] // 7), new, known_hits, harness_errors)
     wall = time.monotonic() - t0
     runs = stats.get('runs', 0)
     coverage = {
+        'interpreter_configuration_slices': slices,
         'evaluations': int(stats.get('calls', 0) + stats.get('module_calls', 0)),
         'distinct_nontrivial': int(distinct_texts),
         'rule': 'cases = parse calls on long-lived parser objects inside seeded histories (each compared with a pristine parser forked for that one call); '
